@@ -23,7 +23,7 @@ fn stretch_members(kind: Kind) -> Vec<(Vec<Step>, usize)> {
         Kind::GetAssertion | Kind::GetNextAssertion => vec![(vec![k(2)], 676), (vec![k(1), s("id")], 255), (vec![k(3)], 77)],
         Kind::ClientPin => vec![(vec![k(2)], 48)],
         Kind::CredentialManagement => vec![(vec![k(3), s("id")], 256), (vec![k(7), s("id")], 255), (vec![k(6), s("id")], 64)],
-        Kind::LargeBlobs => vec![(vec![k(1)], LARGE_BLOB_CAP)],
+        Kind::LargeBlobs => vec![(vec![k(1)], lb_cap())],
         _ => vec![],
     }
 }
